@@ -255,7 +255,7 @@ def inv_rows(prog, sh=None):
     sh = sh or Shard()
     wrong = []
     n = 0
-    for name, p in MODULI:
+    for name, p in [x for x in MODULI if not x[0].startswith("like-")]:      # (the look-alikes are not primes)
         if name.startswith("generic") and name != "generic127":
             continue
         for a in (1, 2, p - 1, (p + 1) // 2, 0xDEADBEEFCAFEBABE1234567 % p):
